@@ -46,6 +46,13 @@ def r8_request_reaches_fit(ctx):
     r4_fit_iff_no_hash(ctx)
 
 
+def r10_samples_paired(ctx):
+    """the model value of every sample is paired with that sample on both
+    segments (recovery on the retract segment)"""
+    from .c13 import r1_direction_wrapper
+    r1_direction_wrapper(ctx)
+
+
 RULES = [
     ("C01-R1", "a supplied initial guess reaches the optimiser",
      fitclauses.clause_guess_delivery),
@@ -61,6 +68,11 @@ RULES = [
     ("C01-R9", "a request is copied into the settings in an order in which "
      "no stored value is overwritten by a dependent reset",
      fitclauses.clause_store_order),
+    ("C01-R11", "the contact point is converted between measured and "
+     "corrected units once in each direction, value only, and nothing "
+     "else uses the correction factor", fitclauses.clause_gcf_pairing),
+    ("C01-R10", "model values stay paired with their samples for either "
+     "orientation of the abscissa", r10_samples_paired),
     ("C01-R7", "the points fitted are those of the requested interval on "
      "the requested segment", fitclauses.clause_absolute_mask),
     ("C01-R8", "every keyword of a fit request is stored as given and the "
